@@ -100,6 +100,12 @@ impl Rng {
         w.len() - 1
     }
 
+    /// A side stream derived from the current state WITHOUT advancing it: additions to a generator that
+    /// draw from it leave every choice the generator made before (and makes afterwards) as it was.
+    pub fn side(&self, tag: u64) -> Rng {
+        Rng::new(mix(self.s[0] ^ self.s[1].rotate_left(17) ^ self.s[3].rotate_left(41), tag))
+    }
+
     pub fn fork(&mut self, tag: u64) -> Rng {
         Rng::new(mix(self.next_u64(), tag))
     }
